@@ -485,6 +485,7 @@ def _p5(ctx):
     """reader mode: Single stored only on the consumers==1 edge after an Acquire fence;
     Clone for InnerRecv bumps the count (and marks Multi) before copying the Reader"""
     F = ctx.F
+    subjects = set()
     for name in list(F.fns):
         f = F.fns[name]
         if f.get('from_expansion'):
@@ -495,8 +496,11 @@ def _p5(ctx):
                 if s['k'] == 'assign' and s['rv']['k'] == 'agg' and s['rv']['ak'] == 'adt' and \
                         s['rv']['adt'].endswith('ReaderState') and s['rv']['variant'] == 'Single':
                     hit = True
-        if not hit:
-            continue
+        if hit:
+            # (a helper that does not exist in the reference tree is analysed inside the functions that call it)
+            subjects |= ctx.subjects_for(name)
+    for name in sorted(subjects):
+        f = F.fns[name]
         g = ctx.graph(name)
         x = g.x
         one, _f, _h = x.eq_tests(lambda a_, b_: a_[0] == 'call' and x.rep(a_[1]) in x.atoms and
